@@ -1,7 +1,7 @@
 """Bounded stand-in (NOT a proof): a lazy index (directory given as one unloaded entry pointing at a directory object) behaves
 like the explicitly expanded index, and filtered views expose exactly the keys satisfying a prefix-closed filter (C17).
 Bound: one or two directory objects with <= 5 files, relpath depth <= 3, plus <= 2 loose files; access sequences of <= 4
-operations from {getitem, contains, iteritems(prefix), ls, view.iteritems(prefix), view.ls}; in-memory index; n cases (seeded)."""
+operations from {getitem, contains, iteritems(prefix), ls, view.iteritems(prefix), view.ls, detailed ls / view.ls}; in-memory index; n cases (seeded)."""
 import logging; logging.disable(logging.CRITICAL)
 import hashlib, json, os, random, sys, tempfile
 SRC = os.environ.get("PYVC_REPO_SRC", "/repo/src")
@@ -56,7 +56,7 @@ def main(n, seed):
             flt = (lambda key: True) if banned is None else (lambda key: key[: len(banned)] != banned)
             ops = []
             for _ in range(rnd.randint(1, 4)):
-                kind = rnd.choice(["get", "in", "iter", "ls", "viter", "vls", "viter"])
+                kind = rnd.choice(["get", "in", "iter", "ls", "viter", "vls", "viter", "vlsd", "vlsd", "lsd"])
                 k = rnd.choice(sorted(allkeys) + [("nope",), ()])
                 ops.append((kind, k))
             distinct.add((tuple(sorted((t, tuple(v)) for t, v in listing.items())), tuple(ops), banned))
@@ -79,6 +79,10 @@ def main(n, seed):
                             out.append(("viter", k, got))
                         elif kind == "vls":
                             out.append(("vls", k, sorted(vw.ls(k, detail=False))))
+                        elif kind == "vlsd":  # the detailed listing (what the fs adaptor and diff() use)
+                            out.append(("vlsd", k, sorted((kk, bool(info.get("isdir") or info.get("type") == "directory")) for kk, info in vw.ls(k, detail=True))))
+                        elif kind == "lsd":
+                            out.append(("lsd", k, sorted((kk, bool(info.get("isdir") or info.get("type") == "directory")) for kk, info in idx.ls(k, detail=True))))
                     except KeyError as e:
                         out.append((kind, k, "KeyError"))
                     except Exception as e:  # noqa: BLE001
